@@ -76,3 +76,15 @@ def run(ctx, module, inv, mode, export_args, chunks, procs=4, timeout=1500):
                 c["rule"], c["shortcut"], c["witness"], c.get("cause"))
         ctx.report(what, {"check": module, "case": c}, sig)
     return confirms
+
+
+def replay(ctx, path, mode):
+    """Re-executes one reported witness (a confirm record) on a freshly parsed rule."""
+    ctx.build()
+    obj = json.load(open(path))
+    cp = os.path.join(ctx.work, "case.json")
+    with open(cp, "w") as f:
+        json.dump(obj["case"], f)
+    r = ctx.vh(["replay-prog", "mode=" + mode, "in=" + cp])
+    print(json.dumps(r, indent=1))
+    return 1 if r["violates_again"] else 0
